@@ -1,7 +1,7 @@
 """Engine T: LLRB tree-table structural rules (C01: T1-T3, C04: T5, C15: A4) and the generic
 count-pairing rule T4 (C01/C05/C08/C09/C10)."""
 import collections
-from .frontend import walk, children, strip, strip_parens, qtype, Ext
+from .frontend import walk, children, strip, strip_parens, qtype, dtype, Ext
 from .expr import canon, access_path, int_value, is_null, var_init
 from .own import propagate, node_events, cond_null_test, ALLOCATORS
 
@@ -1011,3 +1011,100 @@ def rule_t10(prog, rep, rid='T10'):
                                   '%s stamps a node as visited (%s, line %s) and can then still fail (return at line %s): the node is '
                                   'never delivered - the caller\'s retry and every continuation of the walk skip that key'
                                   % (f.name, canon(x), x.get('_line'), bad.line))
+
+
+def rule_t11(prog, rep, rid='T11'):
+    """Wrap of the traversal id.  Visited marks are compared for equality with the table's traversal id; new nodes carry the
+    mark 0 and marks of abandoned walks stay in the nodes.  With an id narrower than 32 bits the id comes round again after
+    2^width walk starts, so the function that advances it must detect the wrap (a test of the id against 0 after the
+    increment) and, on the wrap, clear the marks of every node (a call of a function that writes the mark field and visits
+    both subtrees) before the id is used; the id in use is then never 0."""
+    rep.rule(rid, 'the function that advances a traversal id narrower than 32 bits detects the wrap and clears every node\'s mark before '
+                  'the id is used again (marks of earlier walks and the zero mark of new nodes must not equal a live id)')
+    prog.unit(UNIT)
+    funcs = [f for f in prog.funcs_in(UNIT) if f.body is not None]
+
+    def is_bump(y):
+        return y.get('kind') == 'UnaryOperator' and y.get('opcode') == '++' and canon(children(y)[0]).endswith('->tid') and \
+            (strip(children(y)[0]).get('_field') or ('',))[0] != NODE
+    # purgers: functions that assign the node mark and reach both children (recursion or loop), transitively
+    def writes_mark(g):
+        return any(y.get('kind') == 'BinaryOperator' and y.get('opcode') == '=' and strip(children(y)[0]).get('kind') == 'MemberExpr'
+                   and strip(children(y)[0]).get('name') == 'tid' and (strip(children(y)[0]).get('_field') or ('',))[0] == NODE
+                   and strip(children(y)[0]).get('isArrow') and int_value(children(y)[1]) == 0
+                   for y in walk(g.body))
+    purgers = set()
+    for g in funcs:
+        if writes_mark(g):
+            fields = {x.get('name') for x in walk(g.body) if x.get('kind') == 'MemberExpr' and (x.get('_field') or ('',))[0] == NODE}
+            recargs = {canon(a).split('->')[-1] for y in walk(g.body) if y.get('kind') == 'CallExpr' and prog.callee_name(y) == g.name
+                       for a in children(y)[1:]}
+            if {'left', 'right'} <= fields and {'left', 'right'} <= recargs:
+                purgers.add(g.name)
+    rep.notes['mark_purging_functions'] = sorted(purgers)
+    for f in sorted(funcs, key=lambda x: x.line or 0):
+        cfg = f.cfg
+        bumps = [n for n in cfg.nodes if n.id in cfg.reachable and isinstance(n.ast, dict) and n.kind != 'macro' and any(is_bump(y) for y in walk(n.ast))]
+        for n in bumps:
+            rep.instance(rid)
+            fld = [strip(children(y)[0]) for y in walk(n.ast) if is_bump(y)][0]
+            t = (qtype(fld) or '') + ' ' + (dtype(fld) or '')
+            width = 8 if ('uint8_t' in t or 'unsigned char' in t) else (16 if ('uint16_t' in t or 'unsigned short' in t) else 32)
+            if width >= 32:
+                rep.oblige(rid, True, {'function': f.name, 'id_width': width})
+                continue
+            # wrap test: a condition comparing the id with 0 in the bump node itself or after it; on the wrap edge a purger is called
+            ok, why = False, 'no test of the id against 0 follows the increment'
+            cands = [n] + [m for m in cfg.nodes if m.id in cfg.reachable and m.kind == 'cond']
+            for m in cands:
+                if m.kind != 'cond' or not isinstance(m.ast, dict):
+                    continue
+                c = strip_parens(m.ast)
+                if c.get('kind') != 'BinaryOperator' or c.get('opcode') not in ('==', '!='):
+                    continue
+                a, b = children(c)
+                if not ((canon(a).endswith('->tid') or '->tid' in canon(a)) and int_value(b) == 0 or
+                        (canon(b).endswith('->tid') or '->tid' in canon(b)) and int_value(a) == 0):
+                    continue
+                if m is not n and not _reach_node(cfg, n, m):
+                    continue
+                wraplab = 'T' if c['opcode'] == '==' else 'F'
+                starts = [s for (s, lab) in m.succs if lab == wraplab]
+                # every path from the wrap edge to the exit passes a purger call
+                def purges(k):
+                    return isinstance(k.ast, dict) and k.kind != 'macro' and any(
+                        y.get('kind') == 'CallExpr' and prog.callee_name(y) in purgers for y in walk(k.ast))
+                seen, work, leak = set(), list(starts), False
+                while work and not leak:
+                    k = work.pop()
+                    if k.id in seen or purges(k):
+                        continue
+                    seen.add(k.id)
+                    if k is cfg.exit:
+                        leak = True
+                        break
+                    work += [s for (s, _l) in k.succs]
+                if leak:
+                    why = 'the wrap is detected (line %s) but a path from there returns without clearing the marks of all nodes' % m.line
+                else:
+                    ok = True
+                    break
+            rep.oblige(rid, ok, {'function': f.name, 'id_width': width})
+            if not ok:
+                rep.violation(rid, f, n.line, 'wrap:%s' % canon(fld),
+                              '%s advances the %d-bit traversal id %s, but %s: after %d walk starts the id equals marks left in the nodes '
+                              '(new nodes carry 0, abandoned walks leave theirs) and those nodes are skipped by the walk'
+                              % (f.name, width, canon(fld), why, 2 ** width))
+
+
+def _reach_node(cfg, a, b):
+    seen, work = set(), [s for (s, _l) in a.succs]
+    while work:
+        m = work.pop()
+        if m is b:
+            return True
+        if m.id in seen:
+            continue
+        seen.add(m.id)
+        work += [s for (s, _l) in m.succs]
+    return False
